@@ -13,9 +13,9 @@ from lib import core, gendoc as G, oracle_html, drv as D
 ID = 'C03'
 EXT = D.EXT_CLI & ~D.EXT['SMART']
 SAFE = set(['emph', 'strong', 'code', 'link', 'image', 'esc', 'entity', 'break', 'quote', 'list', 'codeblock', 'rule', 'heading', 'table', 'deflist', 'footnote', 'math', 'supsub', 'autolink',
-            'figure', 'smart', 'adjacent', 'tight-children'])
+            'figure', 'smart', 'adjacent', 'tight-children', 'heading-inlines', 'colspan'])
 # what plain Markdown (compatibility mode) knows
-COMPAT = set(['emph', 'strong', 'code', 'link', 'image', 'esc', 'entity', 'break', 'quote', 'list', 'codeblock', 'rule', 'heading', 'autolink', 'figure', 'indented-only', 'adjacent', 'tight-children'])
+COMPAT = set(['emph', 'strong', 'code', 'link', 'image', 'esc', 'entity', 'break', 'quote', 'list', 'codeblock', 'rule', 'heading', 'autolink', 'figure', 'indented-only', 'adjacent', 'tight-children', 'heading-inlines'])
 # mode name -> (extensions, smart, compat, features)
 MODES = {
     'mmd': (EXT, False, False, SAFE),
